@@ -16,6 +16,7 @@ REVIEWED_UNWRAPS = {
 
 
 def run(db, chk):
+    dedup_key_rule(db, chk)
     fns = [f for f in db.by_crate["gix_refspec"] if "::match_group::" in f.name and f.kind != "promoted"]
     chk.floor("match_group functions", len(fns), 20)
     nranges = 0
@@ -72,3 +73,35 @@ def run(db, chk):
                 suffix = f.name.split("match_group::")[-1]
                 chk.ob("unwrap-reviewed", "%s %s@%d" % (suffix, c.name.split("::")[-1], c.line), suffix in REVIEWED_UNWRAPS, REVIEWED_UNWRAPS.get(suffix, "not on the reviewed list"), c.where(), key="unwrap|%s" % suffix)
     chk.set("explicit_unwraps", n)
+
+
+def dedup_key_rule(db, chk):
+    """match_remotes drops mappings it has seen before: two mappings are the same only if source AND destination agree. The value that is hashed
+    for the `seen` set must therefore be the whole Mapping or involve its `lhs` (object-id sources have no item index: keying on (item_index, rhs)
+    merges `<id1>:refs/x` and `<id2>:refs/x` and hides the conflict git reports)."""
+    from gx.flow import Flow
+    f = db.one(r"^gix_refspec::match_group::<impl gix_refspec::match_group::types::MatchGroup<'a>>::match_remotes$")
+    fam = [f] + [g for g in db.closures_of(f) if g.kind == "closure"]
+    n = 0
+    for g in fam:
+        gfl = Flow(g)
+        for c in g.calls():
+            if not c.is_(r"match_group::calculate_hash$|hash::Hash>?::hash$") or not c.args:
+                continue
+            fields = set()
+            whole = False
+            for r in gfl.roots(c.args[0] if c.is_(r"calculate_hash$") else c.args[0], stop_named=False):
+                if r[0] in ("arg", "var"):
+                    proj = r[2] if r[0] == "arg" else r[3]
+                    fs = [x for x in proj if isinstance(x, str) and x.startswith(".") and not x[1:].isdigit()]
+                    if fs:
+                        fields |= set(fs)
+                    elif r[0] == "arg" and r[1] >= 2:
+                        whole = True
+            if not c.is_(r"calculate_hash$"):
+                continue
+            n += 1
+            ok = whole or ".lhs" in fields or not fields
+            chk.ob("dedup-key-covers-source-and-destination", "%s calculate_hash@%d" % (g.name.split("::")[-1], c.line), ok,
+                   "the uniqueness key is built from %s only: mappings with different sources but the same destination are merged" % sorted(fields), c.where(), key="dedup-key|match_remotes")
+    chk.floor("match_remotes: uniqueness key", n, 1)
